@@ -6,7 +6,7 @@ translator verifies that their bodies still have the reviewed shape (`Gen.shape_
 namespace Monero
 inductive Res | val (x : Int) | panic deriving DecidableEq, Repr
 
-def tyOf (signed : Bool) : IntTy := if signed then I64 else U64
+def tyOf (signed : Bool) : IntTy := if signed then TyI64 else TyU64
 def genChecked (signed : Bool) : Arith → Option StdOp
   | .add => if signed then Gen.s_checked_add else Gen.u_checked_add
   | .sub => if signed then Gen.s_checked_sub else Gen.u_checked_sub
@@ -41,7 +41,7 @@ def amtAssign (signed : Bool) (op : Arith) (a b : Int) : Option Res :=
   | some o => amtOperator signed o a b
 
 /-- `Amount::to_signed` -/
-def toSigned (a : Int) : Option Int := if a > I64.hi then none else some a
+def toSigned (a : Int) : Option Int := if a > TyI64.hi then none else some a
 /-- `SignedAmount::to_unsigned` -/
 def toUnsigned (a : Int) : Option Int := if a < 0 then none else some a
 /-- `SignedAmount::positive_sub` -/
